@@ -180,7 +180,8 @@ Fixpoint insert_node (x : N * node) (l : list (N * node)) : list (N * node) :=
 (* the transaction-model state of a scheduling snapshot (env_var rows: the histories use none) *)
 Definition st_of_graph (tbl : list (key * N)) (g : graph) (cap : N) : st :=
   let kof := key_of tbl in
-  let nd (i : N) (det : bool) (cr : option N) := (i, mkNode (kof i) (option_map kof cr) det) in
+  let nd (i : N) (det : bool) (cr : option N) :=
+    (i, mkNode (kof i) (if key_eqb (kof i) root_key then Some root_key else option_map kof cr) det) in
   mkSt (map snd (fold_right insert_node []
           (map (fun s => nd (s_key s) (s_detached s) (s_creator s)) (g_steps g)
            ++ map (fun f => nd (f_key f) (f_detached f) (f_creator f)) (g_files g)
@@ -215,15 +216,34 @@ Fixpoint run_tx (idf : key -> N) (l : list (ann * op)) (s : st) (g : graph) (ok 
       | _ => None
       end
   end.
-(* 0 = projection lands on the real columns with all side conditions; otherwise which part failed *)
+(* 0 = projection lands on the real columns with all side conditions, the states before and after satisfy
+   J (C09's invariant without the holding clause, no trees, acyclic creator links) and are coupled to the
+   snapshots (the certificate of reach_certified in C10_cached_equals_spec_at_every_decision_partial);
+   otherwise which part failed *)
 Definition tx_verdict (tbl : list (key * N)) (cap : N) (l : list (ann * op)) (gb ga : graph) : N :=
-  match run_tx (idf_of tbl) l (st_of_graph tbl gb cap) gb true with
-  | Some (_, g', ok) => if graph_sim g' ga then (if ok then 0 else 2) else 1
+  let s := st_of_graph tbl gb cap in
+  match run_tx (idf_of tbl) l s gb true with
+  | Some (s', g', ok) =>
+      if negb (graph_sim g' ga) then 1
+      else if negb ok then 2
+      else if negb (inv_core_b s && ntc_b s && coupled_b (idf_of tbl) s gb) then 4
+      else if negb (inv_core_b s' && ntc_b s') then 5
+      else if negb (coupled_b (idf_of tbl) s' g') then 6
+      else 0
   | None => 3
   end.
 Definition tx_ok (tbl : list (key * N)) (cap : N) (l : list (ann * op)) (gb ga : graph) : bool :=
   tx_verdict tbl cap l gb ga =? 0.
 """
+
+
+def norm_root(snap: dict) -> dict:
+    """The root row of the node table is its own creator (CHECK creator IS i); the coupling of
+    model/SchedGraph.v drops this self-reference (node_cre: None for the root). No function of
+    model/Sched.v reads the creator of the root."""
+    out = dict(snap)
+    out["others"] = [dict(o, creator=None) if o["kind"] == "root" else o for o in snap["others"]]
+    return out
 
 
 def tbl_term(tbl: dict[int, tuple[str, str]]) -> str:
@@ -235,7 +255,7 @@ def tx_case(ev: dict, before: dict, after: dict, ops, to_coq) -> str:
     tbl = tbl_term(key_table(before, after))
     tx = clist(f"({a}, {o})" for a, o in ops)
     cap = after["defer_cap"]
-    return f"tx_ok {tbl} {cap} {tx} {to_coq(before)} {to_coq(after)}"
+    return f"tx_ok {tbl} {cap} {tx} {to_coq(norm_root(before))} {to_coq(norm_root(after))}"
 
 
 def tx_diag(ev: dict, before: dict, after: dict, ops, to_coq) -> list[str]:
@@ -243,7 +263,7 @@ def tx_diag(ev: dict, before: dict, after: dict, ops, to_coq) -> list[str]:
     tbl = tbl_term(key_table(before, after))
     tx = clist(f"({a}, {o})" for a, o in ops)
     cap = after["defer_cap"]
-    gb, ga = to_coq(before), to_coq(after)
+    gb, ga = to_coq(norm_root(before)), to_coq(norm_root(after))
     return [
         f"tx_verdict {tbl} {cap} {tx} {gb} {ga}",
         f"flat_map (fun ao => trace_of (step_op_t (idf_of {tbl}) (fst ao) (snd ao) (st_of_graph {tbl} {gb} {cap}))) (firstn 1 {tx})",
